@@ -447,6 +447,14 @@ Fixpoint find_close (fuel : nat) (s : string) (acc_rev : string) : option (strin
       end
   end.
 
+(** "this is an #include line, its quotes are not a string literal": after the leading white
+    space comes '#', and after the white space that follows it, "include" *)
+Definition is_include_line (s2 : string) : bool :=
+  match trim_start s2 with
+  | String h r => Ascii.eqb h "#" && starts_with "include" (trim_start r)
+  | EmptyString => false
+  end.
+
 Fixpoint scan_loop (fuel : nat) (asm : bool) (remaining out : string) (insert_it : bool)
          (st : scan_state) : scan_res :=
   match fuel with
@@ -476,7 +484,7 @@ Fixpoint scan_loop (fuel : nat) (asm : bool) (remaining out : string) (insert_it
                                 (mkScan true (sc_next_lit st) (sc_lits st))
           | None => ScanOk out' ins' st
           end in
-        if negb (starts_with "#include" (trim_start s2)) && negb asm then
+        if negb (is_include_line s2) && negb asm then
           match split_once """" s2 with
           | Some (lft, _) =>
               let after_quote := string_drop (S (String.length lft)) remaining in
@@ -527,6 +535,40 @@ Definition directive_parts (substr : string) : string * option string :=
   match split_blank s with
   | Some (w, r) => let r' := trim r in (w, if String.eqb r' "" then None else Some r')
   | None => (s, None)
+  end.
+
+(** the generic dispatch (after macro replacement; [substr] starts with '#'): the directive name
+    is the first character and the ASCII letters that follow it, the argument the rest of the
+    text before any "//", trimmed, [None] when empty: "#if!FOO" is "#if" with argument "!FOO" *)
+Fixpoint take_alpha (s : string) : string * string :=
+  match s with
+  | String a r => if is_alpha a then let '(w, t) := take_alpha r in (String a w, t)
+                  else (EmptyString, s)
+  | EmptyString => (EmptyString, EmptyString)
+  end.
+
+Definition directive_name_arg (substr : string) : string * option string :=
+  let text := before "//" substr in
+  match text with
+  | String h r =>
+      let '(w, rest) := take_alpha r in
+      let a := trim rest in
+      (String h w, if String.eqb a "" then None else Some a)
+  | EmptyString => (EmptyString, None)
+  end.
+
+(** '#' may be followed by blanks before the directive name ("#  define", "# else"): when the
+    uncommented text, after its leading white space, is '#' followed by white space, it becomes
+    '#' and the rest without that white space (the white space before the '#' goes too);
+    otherwise it is left as it is *)
+Definition hash_blanks (out : string) : string :=
+  match trim_start out with
+  | String h rest =>
+      if Ascii.eqb h "#" then
+        let name := trim_start rest in
+        if Nat.eqb (String.length name) (String.length rest) then out else String "#" name
+      else out
+  | EmptyString => out
   end.
 
 (** [define_regex] on the trimmed directive argument: leftmost identifier, optional "(params)",
@@ -657,6 +699,7 @@ Definition line_body (rec : string -> option (string * N) -> bool -> list string
   let has_lf := ends_with nl buf in
       let p := set_scan p sc in
       if negb insert_it then POk p else
+      let out := hash_blanks out in
       let substr := trim out in
       let here := (fname, line, inc) in
       let st := p_state p in
@@ -719,7 +762,7 @@ Definition line_body (rec : string -> option (string * N) -> bool -> list string
         let new_line := replace_all_c ms out in
         let substr := trim new_line in
         if starts_with "#" substr then
-          let '(name, arg) := directive_parts substr in
+          let '(name, arg) := directive_name_arg substr in
           if String.eqb name "#include" then
             if cstate_eqb st Active then
               match arg with
